@@ -125,7 +125,7 @@ def run(chk, replay=None):
     jobs = []
     for i in range(n):
         seed = chk.seed * 100000 + i
-        jobs.append(lambda i=i, seed=seed: one_model(chk, binary, "m%d" % seed, emit.random_model(seed, fnptr=(i % 5 == 0), wrapped=(i % 3 == 1), layout=(i % 4 == 2)), CONFIGS[i % len(CONFIGS)], stats))
+        jobs.append(lambda i=i, seed=seed: one_model(chk, binary, "m%d" % seed, emit.random_model(seed, fnptr=(i % 5 == 0), wrapped=(i % 3 == 1), wrapped_ctx=("" if i % 6 == 1 else "Arc"), layout=(i % 4 == 2)), CONFIGS[i % len(CONFIGS)], stats))
     # ---- C++ mode
     pm_cpp, em_cpp = calibrate_cpp(chk, binary)
     jobs.append(lambda: one_model_cpp(chk, binary, "plugin-api", pm_cpp, em_cpp, {"default_container": "Box", "default_context": "Arc"}, stats))
@@ -134,7 +134,7 @@ def run(chk, replay=None):
         seed = chk.seed * 100000 + 50000 + i
 
         def job(i=i, seed=seed):
-            m, em, _, _ = bgrun.emit_cpp.random_cpp(seed, fnptr=(i % 5 == 0), wrapped=(i % 3 == 1), layout=(i % 4 == 2))
+            m, em, _, _ = bgrun.emit_cpp.random_cpp(seed, fnptr=(i % 5 == 0), wrapped=(i % 3 == 1), wrapped_ctx=("" if i % 6 == 1 else "Arc"), layout=(i % 4 == 2))
             one_model_cpp(chk, binary, "c%d" % seed, m, em, CONFIGS[i % len(CONFIGS)], stats)
         jobs.append(job)
     rtrun.run_many(chk, jobs)
